@@ -1,6 +1,7 @@
 """C07 ECDSA verification accepts exactly the signatures SEC 1 section 4.1.4 accepts."""
 import os
 from .common import Check, load_prog, load_globals, new_machine, tm, X, MOD, N_ORDER, sym_bytes, cat_bytes, cat_limbs, sym_limbs
+from .schnorr_common import snapshot, unchanged
 from . import models, stubs, toy as T
 
 SECEC = MOD + '/secec.'
@@ -95,8 +96,11 @@ def main():
                 ctx.assume(tm.bnot(tm.eq(q, 0, W)))
                 e16, hb = digest_bytes(L)
                 pub = T.new_public_key(m, q)
-                res = m.call(PK + 'VerifyRaw', [pub, m.new_byte_slice(hb, 'digest'), T.new_scalar(m, r), T.new_scalar(m, s)])
+                hsl, rp, sp = m.new_byte_slice(hb, 'digest'), T.new_scalar(m, r), T.new_scalar(m, s)
+                snap = snapshot(m, [pub, hsl, rp, sp])
+                res = m.call(PK + 'VerifyRaw', [pub, hsl, rp, sp])
                 sub.note_machine(m)
+                ctx.check(unchanged(m, snap), 'bv:key-object-and-arguments-unchanged-by-verification')
                 spec = spec_verify(toy, e16, r, s, q) if L >= 32 else False
                 ctx.check(tm.eq(res, spec, 0), 'bv:VerifyRaw-accepts-iff-SEC1-4.1.4')
                 # private-key arm of verify() agrees
@@ -131,8 +135,11 @@ def main():
                 sig = T.be32(r16) + T.be32(s16) + ([v] if enc == 2 else [])
                 opts = X.Ptr(m.new_obj(None, tree=[hashid, enc & (2 ** 64 - 1), False, malle], label='ECDSAOptions'), ())
                 pub = T.new_public_key(m, q)
-                res = m.call(PK + 'Verify', [pub, m.new_byte_slice(hb, 'digest'), m.new_byte_slice(sig, 'sig'), opts])
+                hsl, ssl = m.new_byte_slice(hb, 'digest'), m.new_byte_slice(sig, 'sig')
+                snap = snapshot(m, [pub, hsl, ssl, opts])
+                res = m.call(PK + 'Verify', [pub, hsl, ssl, opts])
                 sub.note_machine(m)
+                ctx.check(unchanged(m, snap), 'bv:key-object-and-arguments-unchanged-by-verification')
                 size = stubs.HASH_SIZES[hashid or 5]
                 half = (toy.n - 1) // 2
                 if L != size or enc not in (1, 2):
